@@ -203,6 +203,9 @@ class SpawnProcess(multiprocessing.context.SpawnProcess):
             while self.exitcode is None:
                 time.sleep(0.001)
 
+            # The child did not get to put the end-of-log marker in the queue.
+            self._logger_queue_.put(None)
+
             exitcode = -self.exitcode
             if exitcode == errno.ENOTBLK:  # 15
                 # warnings.warn(
@@ -225,7 +228,10 @@ class SpawnProcess(multiprocessing.context.SpawnProcess):
                 self._future_.set_exception(err)
                 raise err
 
-        self._logger_queue_.put(None)
+        # Do not put the end-of-log marker in `self._logger_queue_` here: the child does that
+        # after its last record. A marker put from this side could overtake the child's final
+        # records (they would be lost), and once the logger thread stops reading, a child
+        # that still has more than a pipe-full of records to flush could never exit.
         self._result_and_error_.close()
         self._result_and_error_ = None
         if error is not None:
@@ -255,13 +261,17 @@ class SpawnProcess(multiprocessing.context.SpawnProcess):
         # Upon completion, `result_and_error` will contain `result` and `exception`
         # in this order; both may be `None`.
 
+        logger_queue = self._kwargs.pop('_logger_queue_')
+        # This process puts the end-of-log marker (`None`) in `logger_queue` itself, after its last
+        # log record, so that the marker can not overtake records that are still on their way.
+
         if not self._target:
             result_and_error.send(None)
             result_and_error.send(None)
             result_and_error.close()
+            logger_queue.put(None)
+            logger_queue.close()
             return
-
-        logger_queue = self._kwargs.pop('_logger_queue_')
 
         if not logging.getLogger().hasHandlers():
             # Set up putting all log messages
@@ -281,6 +291,7 @@ class SpawnProcess(multiprocessing.context.SpawnProcess):
             # but this is usually not recommended.
             # This sually happends because logging is configured on the module level rather than
             # in the ``if __name__ == '__main__':`` block.
+            logger_queue.put(None)
             logger_queue.close()
             logger_queue = None
             qh = None
@@ -325,6 +336,7 @@ class SpawnProcess(multiprocessing.context.SpawnProcess):
             result_and_error.close()
             if qh is not None:
                 logging.getLogger().removeHandler(qh)
+                logger_queue.put(None)
                 logger_queue.close()
 
     def _bootstrap(self, parent_sentinel=None):
